@@ -3,9 +3,8 @@ use rusty_bit_vec::{BitVec, INT_BITS};
 // const FLOAT_BITS: usize = 32;
 const DOUBLE_BITS: usize = 64;
 
+#[cfg(test)]
 const DOUBLE_EXPONENT_BITS: usize = 11;
-const DOUBLE_SIGNIFICANT_BITS: usize = 52;
-const DOUBLE_BIAS: i32 = 1023;
 
 pub fn qb_and(a: i32, b: i32) -> i32 {
     let a_bits: BitVec = a.into();
@@ -74,45 +73,10 @@ fn fmt_bits_into_string(s: &mut String, bits: &[bool]) {
 }
 
 pub fn bytes_to_f64(bytes: &[u8]) -> f64 {
-    // bytes is lsb -> msb
-    // bits is msb -> lsb
+    // bytes is lsb -> msb, the exact inverse of f64_to_bytes
     debug_assert_eq!(bytes.len(), DOUBLE_BITS / 8);
-    let bits: Vec<bool> = lsb_bytes_to_msb_bits(bytes);
-    debug_assert_eq!(bits.len(), DOUBLE_BITS);
-    let sign = bits[0];
-
-    let exponent_bits = &bits[1..DOUBLE_EXPONENT_BITS + 1];
-    debug_assert_eq!(DOUBLE_EXPONENT_BITS, exponent_bits.len());
-    let mut exponent_with_bias: i32 = 0;
-    for exponent_bit in exponent_bits.iter() {
-        exponent_with_bias *= 2;
-        if *exponent_bit {
-            exponent_with_bias += 1;
-        }
-    }
-
-    // exponent_with_bias == 0 && F == 0 -> 0
-    // exponent_with_bias == 0 && F!= 0 -> subnormals
-    // exponent_with_bias == 0x7ff (all 1s) && F == 0 -> inf
-    // exponent_with_bias == 0x7ff (all 1s) && F != 0 -> NaN
-
-    let significant_bits = &bits[1 + DOUBLE_EXPONENT_BITS..];
-    debug_assert_eq!(DOUBLE_SIGNIFICANT_BITS, significant_bits.len());
-
-    // 1.significant * 2 ^ exponent - bias
-    let mut result: f64 = 1.0;
-    for (i, bit) in significant_bits.iter().enumerate() {
-        if *bit {
-            result += 2.0_f64.powi(-(i as i32) - 1);
-        }
-    }
-
-    if result == 1.0 && exponent_with_bias == 0 {
-        return 0.0;
-    }
-
-    result *= 2.0_f64.powi(exponent_with_bias - DOUBLE_BIAS);
-    if sign { -result } else { result }
+    let bytes: [u8; DOUBLE_BITS / 8] = bytes.try_into().expect("a double is encoded in 8 bytes");
+    f64::from_le_bytes(bytes)
 }
 
 /// Converts the given bit array into a byte.
